@@ -53,12 +53,13 @@ ASSUME \A c \in {-1, 0, 1} : LET s == Six(c) IN
          /\ s.le = (s.lt \/ s.eq) /\ s.ge = (s.gt \/ s.eq) /\ s.ne = ~s.eq
          /\ Six(-c).lt = s.gt /\ Six(-c).gt = s.lt /\ Six(-c).eq = s.eq
 
+CONSTANT BothWrapped       \* thorough tier: every combination of plain / pointer / interface on BOTH sides
 VARIABLE case
 \* a numeric pair is in the domain when both kinds hold their value exactly, and - if a float is involved -
 \* the integer side is exactly representable as a float64 too
 NumCase(lk, lw, lv, rk, rw, rv) == [fam |-> "num", lk |-> lk, lw |-> lw, lv |-> lv, rk |-> rk, rw |-> rw, rv |-> rv]
 NumInit == \E lk \in NumKinds, rk \in NumKinds, lw \in Wraps, rw \in Wraps :
-             /\ (lw = "plain" \/ rw = "plain")        \* one wrapped side at a time keeps the space at ~10^5
+             /\ (BothWrapped \/ lw = "plain" \/ rw = "plain")        \* quick tier: one wrapped side at a time keeps the space at ~10^5
              /\ \E lv \in Holds(lk), rv \in Holds(rk) :
                   /\ (IsFloat(lk) \/ IsFloat(rk)) => (lv \in F64 /\ rv \in F64)
                   /\ case = NumCase(lk, lw, lv, rk, rw, rv)
